@@ -3,7 +3,7 @@
    inside the allowed band): monitors over events recorded from the real code.
 
    batch event        [vs, toks, n, err, fin, rs, panic]         validator pieces via hooks
-   adjust event       [k, p, ref, some, q, vok, sok, panic]      try_adjust_price ; validate_one ; from_price
+   adjust event       [k, p, ref, res, err, some, q, vok, sok, dsome, dq, panic]   try_adjust_price ; validate_one ; from_price
    with_prices event  [vs, allow_closed, f_ok, pre, items, res, err, called, seen, srs, post, panic]
                       Oracle::with_prices_opts end to end on in-memory accounts *)
 EXTENDS OracleValidate
@@ -34,35 +34,42 @@ ConformsBatch(e) ==
   ~e.panic /\ e.n = b.n /\ e.err = b.err /\ e.fin = b.fin /\ (e.fin => e.rs = b.rs)
 
 (* ---- adjust ---- *)
+(* An adjust event records try_adjust_price (res "ok" with [some, q], or res "err" = the price is rejected
+   outright: some = FALSE, q = p, nothing is judged afterwards) and the inner function
+   try_adjust_price_with_max_deviation_factor on the same input ([dsome, dq]). *)
 (* a clamped bound is on the inner side of its limit: ref - dev <= min', max' <= ref + dev *)
-MonAInward(e) ==
-  LET r == RefOf(e.p, e.ref) d == Dev(r, e.k) IN
-  e.some => (PMax(e.q) <= r + d /\ PMin(e.q) >= r - d)
+AInward(k, p, ref, some, q) ==
+  LET r == RefOf(p, ref) d == Dev(r, k) IN
+  some => (PMax(q) <= r + d /\ PMin(q) >= r - d)
+MonAInward(e) == AInward(e.k, e.p, e.ref, e.some, e.q) /\ AInward(e.k, e.p, e.ref, e.dsome, e.dq)
 (* the statement about the adjuster itself: any price produced by clamping lies within ref +- dev, with
    min <= max.  Made exact: the clamped bounds are rounded INWARD to the granularity of the price, so the
    claim presupposes that the band contains a representable value of each bound (otherwise the inward
-   roundings cross and the result is rejected later, see MonAAccepted); min <= max presupposes one common
-   multiplier (different multipliers are rejected by SmallPrices::from_price). *)
+   roundings cross and the result is rejected, at once or later, see MonAAccepted); min <= max presupposes
+   one common multiplier (different multipliers are rejected by SmallPrices::from_price). *)
 BandHasGrid(p, r, d) ==
   /\ r - d >= 0
   /\ CeilDivP(r - d, Pow10(p.minm)) * Pow10(p.minm) <= r + d
   /\ ((r + d) \div Pow10(p.maxm)) * Pow10(p.maxm) >= r - d
-MonABand(e) ==
-  LET r == RefOf(e.p, e.ref) d == Dev(r, e.k) IN
-  (e.some /\ BandHasGrid(e.p, r, d)) =>
-     /\ r - d <= PMin(e.q) /\ PMin(e.q) <= r + d
-     /\ r - d <= PMax(e.q) /\ PMax(e.q) <= r + d
-     /\ e.q.minm = e.q.maxm => PMin(e.q) <= PMax(e.q)
+ABand(k, p, ref, some, q) ==
+  LET r == RefOf(p, ref) d == Dev(r, k) IN
+  (some /\ BandHasGrid(p, r, d)) =>
+     /\ r - d <= PMin(q) /\ PMin(q) <= r + d
+     /\ r - d <= PMax(q) /\ PMax(q) <= r + d
+     /\ q.minm = q.maxm => PMin(q) <= PMax(q)
+MonABand(e) == ABand(e.k, e.p, e.ref, e.some, e.q) /\ ABand(e.k, e.p, e.ref, e.dsome, e.dq)
 (* nothing adjusted => the original price is what is judged next *)
-MonANoneKeeps(e) == ~e.some => e.q = e.p
+MonANoneKeeps(e) == (e.res = "ok" /\ ~e.some) => e.q = e.p
 (* never accepted out of band or inverted *)
-MonAAccepted(e) == (e.vok /\ e.sok) => (WellFormed(e.q) /\ InBand(e.q, e.ref, e.k))
+MonAAccepted(e) == (e.res = "ok" /\ e.vok /\ e.sok) => (WellFormed(e.q) /\ InBand(e.q, e.ref, e.k))
 ConformsAdjust(e) ==
   LET a == Adjust(e.k, e.p, e.ref)
       q == IF a.some THEN a.p ELSE e.p
       t == [cfg |-> [feed |-> TRUE, adj |-> 0, dev |-> e.k], ots |-> 0, slot |-> 0, p |-> q, ref |-> e.ref]
       v == ValidateOne([now |-> 0, age |-> 0, range |-> 0, excess |-> 0], EmptyRange, t)
-  IN ~e.panic /\ e.some = a.some /\ e.q = q /\ e.vok = v.ok /\ e.sok = (SmallPricesFromPrice(q) = "")
+  IN /\ ~e.panic /\ e.res = "ok" /\ e.some = a.some /\ e.q = q /\ e.vok = v.ok /\ e.sok = (SmallPricesFromPrice(q) = "")
+     (* the wrapper and the inner function agree *)
+     /\ e.dsome = a.some /\ e.dq = q
 
 (* ---- with_prices ---- *)
 (* the oracle is cleared after use whether or not the wrapped operation (or loading) succeeded *)
